@@ -85,7 +85,9 @@ C12pv(i) == (Tr[i].op = "stream" /\ Ok(i)) =>
                                       /\ {e.eid : e \in p.evs} = {s.eid : s \in o.spans}
                                       /\ \A e \in p.evs : e.job = o.job /\ e.jname = o.name
 \* the stream (and the sequencing of what it yields) does not die: a run that got through cleaning and selection ends normally
-C12completes(i) == (Tr[i].op = "end" /\ i > 1 /\ Tr[i - 1].op \in {"clean3", "ug", "filter"} /\ Tr[i - 1].post.status = "ok") =>
+\* (direct use of the holder: the stream follows the ingestion context - "exit" - or an earlier stream of the same object)
+C12completes(i) == (Tr[i].op = "end" /\ i > 1 /\ Tr[i - 1].op \in {"clean3", "ug", "filter", "exit", "stream", "reenter"}
+                    /\ Tr[i - 1].post.status = "ok") =>
                       Tr[i].post.status = "ok"
 \* C15: every run completes; any two runs give the same PV sequence for every trace both of them output; all
 \* unique-graph runs on the ingested store select the same shape classes
